@@ -11,8 +11,8 @@ NAMESETS = [
      "s1": "arm-boot-0:1.0-1.fc40.src", "s2": "libm-2:3-4.rpm.src", "n1": "firm.rpm-0:1-1.nosrc"},
 ]
 ARCHSETS = [{"bin1": "x86_64", "bin2": "ppc64le"}, {"bin1": "noarch", "bin2": "aarch64"}, {"bin1": "s390x", "bin2": "i386"}]
-PATHS = {"rel1": "Server/x86_64/os/Packages/f/pkg.rpm", "rel2": "Packages/other.rpm", "abs": "/mnt/koji/pkg.rpm", "empty": ""}
-SIGS = {"null": None, "lower": "246110c1", "mixed": "F5282Ee4"}
+PATHS = {"rel1": "Server/x86_64/os/Packages/f/pkg.rpm", "rel2": "Packages/other.rpm", "abs": "/mnt/koji/pkg.rpm", "empty": "", "int": 5}
+SIGS = {"null": None, "lower": "246110c1", "mixed": "F5282Ee4", "int": 5}
 SIGS_STORED = {"null": None, "lower": "246110c1", "mixedlower": "f5282ee4"}
 COMPOSE = {"id": "Fedora-22-20150522.0", "type": "production", "date": "20150522", "respin": 0}
 
@@ -32,6 +32,13 @@ def render_name(tok, form, names):
         return n.rsplit("-", 1)[0] + "-" + rest
     if form == "unparsable":
         return "foo:bar"
+    if form == "dircolon":
+        n, rest = s.split(":", 1)
+        return "http://mirror/Packages/" + n.rsplit("-", 1)[0] + "-" + rest + ".rpm"
+    if form == "relcolon":
+        n, rest = s.split(":", 1)
+        v, ra = rest.rsplit("-", 1)
+        return n.rsplit("-", 1)[0] + "-" + v + "-" + ra.replace(".", ":x.", 1)
     if form == "colonjunk":
         return "nodashes:1.0.x86_64"
     raise KeyError(form)
@@ -112,7 +119,7 @@ def replay(case):
                         pass
                 m.add(ev["v"], arch_of(ev["a"], arches, rot), render_name(ev["r"], ev["form"], names), PATHS[ev["path"]],
                       SIGS[ev["sig"]], "package" if ev["cat"] == "invalid" else ev["cat"],
-                      None if ev["srpm"] == "none" else render_name(ev["srpm"], ev["sform"], names))
+                      None if ev["srpm"] == "none" else ("" if ev["srpm"] == "empty" else render_name(ev["srpm"], ev["sform"], names)))
             elif ev["op"] == "del":
                 del m[ev["v"]]
             elif ev["op"] == "reload":
